@@ -206,8 +206,27 @@ def handleNew (c : Case) : Verdict := Id.run do
     if m != r.getD 2 "" then return .differ "new" s!"size {size}: model {m} impl {r.getD 2 ""}"
   return .agree true ["new"]
 
+/-- fusepath: whole blobs fetched through fuse's getBlobAt by concurrent readers under eviction
+    pressure; `rdh <g> <off> <n> ok <len> <sha got> <sha of the blob stored for that id>` -/
+def handleFusePath (c : Case) : Verdict := Id.run do
+  if (c.find "open").map (·.getD 1 "") != some "ok" then return .differ "open" "fusepath: open failed"
+  let mut n := 0
+  for r in c.findAll "rdh" do
+    let ctx := s!"goroutine={r.getD 1 ""} blob-at-offset={r.getD 2 ""} len={r.getD 3 ""}"
+    match r.getD 4 "" with
+    | "ok" =>
+      if r.getD 5 "" != r.getD 3 "" then
+        return .specfalse "C47:value:blob-length-differs" s!"{ctx} got-len={r.getD 5 ""}"
+      if r.getD 6 "" != r.getD 7 "?" then
+        return .specfalse "C47:value:blob-bytes-changed-under-eviction" s!"{ctx} sha-got={r.getD 6 ""} sha-want={r.getD 7 ""}"
+      n := n + 1
+    | "err" => return .specfalse "C47:value:error-without-failed-compute" s!"{ctx} {(unhexStr (r.getD 5 "-")).getD "?"}"
+    | _ => return .specfalse "C47:panic" ctx
+  return .agree (n > 0) ["fusepath", "concurrent-eviction"]
+
 def handleC47 (c : Case) : Verdict :=
   match c.stream with
+  | "fusepath" => handleFusePath c
   | "seq" => handleSeq c
   | "storm" => handleStorm c
   | "new" => handleNew c
